@@ -134,52 +134,6 @@ Qed.
 Lemma r_message_begin_short buf : len buf < 4 -> r_message_begin buf = Err e_read_message.
 Proof. intros H. unfold r_message_begin. destruct (N.ltb_spec (len buf) 4) as [_|Hc]; [reflexivity|lia]. Qed.
 
-(* totality and extent bound on arbitrary bytes *)
-Lemma to_msg_err_ok {A} (r : res A) x : to_msg_err r = Ok x -> r = Ok x.
-Proof. destruct r; cbn [to_msg_err]; congruence. Qed.
-Lemma to_msg_err_safe {A} (r : res A) : safe r -> safe (to_msg_err r).
-Proof. destruct r; cbn [to_msg_err safe]; auto. Qed.
-
-Lemma r_message_begin_total b : safe (r_message_begin b).
-Proof.
-  unfold r_message_begin. destruct (N.ltb_spec (len b) 4) as [H4|H4]; [exact I|].
-  destruct (negb _); [exact I|].
-  rewrite slice_from_ok by lia. cbn [bind].
-  pose proof (r_string_total (drop 4 b)) as Hs.
-  destruct (r_string (drop 4 b)) as [[name l]|e|w|] eqn:E; cbn [to_msg_err bind safe] in *; auto.
-  apply r_string_bounded in E. rewrite drop_len in E by lia.
-  rewrite slice_from_ok by lia. cbn [bind].
-  pose proof (r_i32_total (drop (4 + l) b)) as Hi.
-  destruct (r_i32 (drop (4 + l) b)) as [[sq l2]|e|w|]; cbn [to_msg_err bind safe] in *; auto.
-Qed.
-
-Lemma r_message_begin_bounded b name ty seq n : r_message_begin b = Ok (name, ty, seq, n) -> n <= len b.
-Proof.
-  unfold r_message_begin. destruct (N.ltb_spec (len b) 4) as [H4|H4]; [discriminate|].
-  destruct (negb _); [discriminate|].
-  rewrite slice_from_ok by lia. cbn [bind].
-  destruct (r_string (drop 4 b)) as [[nm l]|e|w|] eqn:E; cbn [to_msg_err bind]; try discriminate.
-  apply r_string_bounded in E. rewrite drop_len in E by lia.
-  rewrite slice_from_ok by lia. cbn [bind].
-  destruct (r_i32 (drop (4 + l) b)) as [[sq l2]|e|w|] eqn:E2; cbn [to_msg_err bind]; try discriminate.
-  apply r_i32_bounded in E2. rewrite drop_len in E2 by lia.
-  intros Hx. assert (Hn : n = 4 + l + l2) by congruence. lia.
-Qed.
-
-(* the only errors of the buffer reader *)
-Lemma r_message_begin_errs b e : r_message_begin b = Err e -> e = e_read_message \/ e = e_bad_version.
-Proof.
-  unfold r_message_begin. destruct (N.ltb_spec (len b) 4) as [H4|H4]; [intros Hx; inversion Hx; auto|].
-  destruct (negb _); [intros Hx; inversion Hx; auto|].
-  rewrite slice_from_ok by lia. cbn [bind].
-  destruct (r_string (drop 4 b)) as [[nm l]|x|w|] eqn:E; cbn [to_msg_err bind]; try discriminate;
-    [|intros Hx; inversion Hx; auto].
-  apply r_string_bounded in E. rewrite drop_len in E by lia.
-  rewrite slice_from_ok by lia. cbn [bind].
-  destruct (r_i32 (drop (4 + l) b)) as [[sq l2]|x|w|] eqn:E2; cbn [to_msg_err bind]; try discriminate.
-  intros Hx; inversion Hx; auto.
-Qed.
-
 (* ---------- locality: a successful read is unchanged by anything that follows ---------- *)
 Lemma take_app_le {A} (p ext : list A) n : n <= len p -> take n (p ++ ext) = take n p.
 Proof.
@@ -492,4 +446,121 @@ Proof.
   intros Hne Hn Hs Hty Hex. exists (enc_msg name ty seq ++ appex_enc ex). split.
   - apply marshal_bytes; [exact appex_blen_enc|exact appex_write_enc|exact Hne].
   - rewrite <- (app_nil_r (appex_enc ex)). apply unmarshal_exception; assumption.
+Qed.
+
+(* ====================================================================================== *)
+(* ---------- no panic on arbitrary bytes (used by C03) ---------- *)
+(* a skip function that never panics and never reports more than it was given *)
+Definition skip_ok (skipf : bytes -> Z -> res N) : Prop :=
+  (forall s t, safe (skipf s t)) /\ (forall s t n, skipf s t = Ok n -> n <= len s).
+
+Lemma appex_read_loop_total skipf : skip_ok skipf ->
+  forall fuel e b off, off <= len b ->
+  safe (snd (appex_read_loop skipf fuel e b off)) /\
+  (forall n, snd (appex_read_loop skipf fuel e b off) = Ok n -> n <= len b).
+Proof.
+  intros [Hsafe Hbound]. induction fuel as [|f IH]; intros e b off Hoff; cbn [appex_read_loop].
+  - cbn [snd safe]. split; [exact I|discriminate].
+  - rewrite slice_from_ok by exact Hoff. cbn [bind].
+    pose proof (r_field_begin_total (drop off b)) as Hft.
+    destruct (r_field_begin (drop off b)) as [[[tp id] l]|x|w|] eqn:Ef; cbn [safe] in Hft; try contradiction;
+      [|cbn [snd safe]; split; [exact I|discriminate]].
+    apply r_field_begin_bounded in Ef. rewrite drop_len in Ef by exact Hoff.
+    destruct (Z.eqb tp thrift_STOP).
+    { cbn [snd safe]. split; [exact I|]. intros n Hn. inversion Hn; subst. lia. }
+    rewrite slice_from_ok by lia.
+    destruct ((id =? 1)%Z && (tp =? thrift_STRING)%Z).
+    { pose proof (r_string_total (drop (off + l) b)) as Hst.
+      destruct (r_string (drop (off + l) b)) as [[m l2]|x|w|] eqn:Es; cbn [safe] in Hst; try contradiction;
+        [|cbn [snd safe]; split; [exact I|discriminate]].
+      apply r_string_bounded in Es. rewrite drop_len in Es by lia. apply IH. lia. }
+    destruct ((id =? 2)%Z && (tp =? thrift_I32)%Z).
+    { pose proof (r_i32_total (drop (off + l) b)) as Hst.
+      destruct (r_i32 (drop (off + l) b)) as [[t l2]|x|w|] eqn:Es; cbn [safe] in Hst; try contradiction;
+        [|cbn [snd safe]; split; [exact I|discriminate]].
+      apply r_i32_bounded in Es. rewrite drop_len in Es by lia. apply IH. lia. }
+    pose proof (Hsafe (drop (off + l) b) tp) as Hst.
+    destruct (skipf (drop (off + l) b) tp) as [l2|x|w|] eqn:Es; cbn [safe] in Hst; try contradiction;
+      [|cbn [snd safe]; split; [exact I|discriminate]].
+    apply Hbound in Es. rewrite drop_len in Es by lia. apply IH. lia.
+Qed.
+
+Lemma appex_read_total skipf e b : skip_ok skipf ->
+  safe (snd (appex_read skipf e b)) /\ (forall n, snd (appex_read skipf e b) = Ok n -> n <= len b).
+Proof. intros H. unfold appex_read. apply appex_read_loop_total; [exact H|lia]. Qed.
+
+(* the fuel S (length b) is never exhausted: every iteration consumes at least one byte *)
+Lemma appex_read_loop_fuel skipf : skip_ok skipf ->
+  forall fuel e b off, off <= len b -> (N.to_nat (len b - off) < fuel)%nat ->
+  snd (appex_read_loop skipf fuel e b off) <> Err e_fuel \/ exists s t, skipf s t = Err e_fuel.
+Proof.
+  intros [Hsafe Hbound]. induction fuel as [|f IH]; intros e b off Hoff Hf; [lia|]. cbn [appex_read_loop].
+  rewrite slice_from_ok by exact Hoff. cbn [bind].
+  destruct (r_field_begin (drop off b)) as [[[tp id] l]|x|w|] eqn:Ef; cbn [snd]; try (left; discriminate).
+  - pose proof (r_field_begin_bounded _ _ _ _ Ef) as Hb. rewrite drop_len in Hb by exact Hoff.
+    assert (Hl : 1 <= l).
+    { unfold r_field_begin, need in Ef. destruct (N.ltb_spec (len (drop off b)) 1); cbn [bind] in Ef; [discriminate|].
+      destruct (Z.eqb _ _); [inversion Ef; lia|]. destruct (N.ltb_spec (len (drop off b)) 3); cbn [bind] in Ef; [discriminate|inversion Ef; lia]. }
+    destruct (Z.eqb tp thrift_STOP); [left; discriminate|].
+    rewrite slice_from_ok by lia.
+    destruct ((id =? 1)%Z && (tp =? thrift_STRING)%Z).
+    { destruct (r_string (drop (off + l) b)) as [[m l2]|x|w|] eqn:Es; cbn [snd]; try (left; discriminate).
+      - apply r_string_bounded in Es. rewrite drop_len in Es by lia. apply IH; lia.
+      - left. apply r_binary_gen_err in Es. intros Hx. inversion Hx; subst. destruct Es; discriminate. }
+    destruct ((id =? 2)%Z && (tp =? thrift_I32)%Z).
+    { destruct (r_i32_cases (drop (off + l) b)) as [[_ ->]|[H4 ->]]; cbn [snd]; [left; discriminate|].
+      rewrite drop_len in H4 by lia. apply IH; lia. }
+    destruct (skipf (drop (off + l) b) tp) as [l2|x|w|] eqn:Es; cbn [snd]; try (left; discriminate).
+    + apply Hbound in Es. rewrite drop_len in Es by lia. apply IH; lia.
+    + destruct (Z.eqb_spec x e_fuel) as [->|Hne]; [right; eauto|left; congruence].
+  - left. unfold r_field_begin, need in Ef.
+    destruct (N.ltb_spec (len (drop off b)) 1); cbn [bind] in Ef; [inversion Ef; discriminate|].
+    destruct (Z.eqb _ _); [discriminate|].
+    destruct (N.ltb_spec (len (drop off b)) 3); cbn [bind] in Ef; [inversion Ef; discriminate|discriminate].
+Qed.
+
+(* UnmarshalFastMsg never panics on any bytes, for any payload whose FastRead model never panics *)
+Lemma unmarshal_total (P : Type) (p_read : P -> bytes -> P * res N) skipf b (m0 : P) :
+  skip_ok skipf -> (forall m s, safe (snd (p_read m s))) ->
+  safe (unmarshal_fast_msg P p_read skipf b m0).
+Proof.
+  intros Hsk Hp. unfold unmarshal_fast_msg.
+  pose proof (r_message_begin_total b) as Hm.
+  destruct (r_message_begin b) as [[[[name ty] seq] i]|x|w|] eqn:Er; cbn [safe] in Hm; try contradiction; [|exact I].
+  apply r_message_begin_bounded in Er. rewrite slice_from_ok by exact Er. cbn [bind].
+  destruct (Z.eqb ty thrift_EXCEPTION).
+  - destruct (appex_read_total skipf (mkex thrift_UNKNOWN_APPLICATION_EXCEPTION []) (drop i b) Hsk) as [Hs _].
+    destruct (appex_read skipf _ (drop i b)) as [ex r]. cbn [snd] in Hs. destruct r; cbn [safe] in *; auto.
+  - pose proof (Hp m0 (drop i b)) as Hs. destruct (p_read m0 (drop i b)) as [m' r]. cbn [snd] in Hs.
+    destruct r; cbn [safe] in *; auto.
+Qed.
+
+(* the limited skip function of the correspondence satisfies skip_ok *)
+Lemma skip_scalar_ok : skip_ok skip_scalar.
+Proof.
+  split.
+  - intros s t. unfold skip_scalar.
+    destruct (len s =? 0); [exact I|]. destruct (0 <? _); [destruct (len s <? _); exact I|].
+    destruct (Z.eqb t thrift_STRING).
+    + destruct (4 <=? len s); [|exact I]. destruct (Z.ltb _ 0); [exact I|]. destruct (_ <=? len s); exact I.
+    + destruct (_ || _); exact I.
+  - intros s t n. unfold skip_scalar.
+    set (k := Z.to_N (nth (N.to_nat (u8 t)) thrift_typeToSize 0%Z)).
+    destruct (len s =? 0); [discriminate|]. destruct (0 <? k).
+    { destruct (N.ltb_spec (len s) k) as [Hlt|Hge]; [discriminate|].
+      intros Hx. assert (Hn : n = k) by congruence. lia. }
+    destruct (Z.eqb t thrift_STRING).
+    + destruct (4 <=? len s); [|discriminate]. destruct (Z.ltb _ 0); [discriminate|].
+      destruct (N.leb_spec (4 + Z.to_N (i32 (unbe (take 4 s)))) (len s)) as [Hle|Hgt]; [|discriminate].
+      intros Hx. assert (Hn : n = 4 + Z.to_N (i32 (unbe (take 4 s)))) by congruence. rewrite Hn. exact Hle.
+    + destruct (_ || _); discriminate.
+Qed.
+
+Lemma appex_read_fuel_ok skipf e b : skip_ok skipf -> (forall s t, skipf s t <> Err e_fuel) ->
+  snd (appex_read skipf e b) <> Err e_fuel.
+Proof.
+  intros Hs Hnf. unfold appex_read.
+  destruct (appex_read_loop_fuel skipf Hs (S (length b)) e b 0) as [H|(s & t & H)]; [lia| |exact H|].
+  - rewrite N.sub_0_r. unfold len. lia.
+  - exfalso. exact (Hnf s t H).
 Qed.
